@@ -129,6 +129,8 @@ structure ReadArgs where
   find : Bytes → Option D
   src : Src
   bufs : List Nat
+  tail : Nat
+  fuel : Nat
 
 def parseReadArgs : List String → Option ReadArgs
   | [dis, flt, ae, ct, mp, lk, pre, tbl, segs, term, lwt, bufs, tail] => do
@@ -148,21 +150,28 @@ def parseReadArgs : List String → Option ReadArgs
     pure { cfg := ⟨dis, flt⟩, ae := ae, ct := ct, mp := mp, lk := lk,
            find := findEncoding bomLookup (prescanOf pre),
            src := ⟨segs, term, lwt⟩,
-           bufs := bufs ++ List.replicate (fuelFor segs tbl) tail }
+           bufs := bufs, tail := tail, fuel := fuelFor segs tbl }
   | _ => none
 
 def laneRead (args : List String) : String :=
   match parseReadArgs args with
-  | some a => showRR (respReads a.cfg a.ae a.ct a.mp (fun _ => a.lk) a.find a.src a.bufs)
+  | some a =>
+    showRR (respReads a.cfg a.ae a.ct a.mp (fun _ => a.lk) a.find a.src
+      (a.bufs ++ List.replicate a.fuel a.tail))
   | none => "bad-op"
 
+/-- Legacy buffers carry content: the explicit buffers and the next four `tail` buffers are
+pre-filled with the dirty pattern (only the first data-carrying read looks at the content;
+the harness keeps that read within this range), the rest are zero-filled. -/
 def laneLegacy (args : List String) : String :=
   match args.reverse with
   | dirty :: rest =>
     match parseReadArgs rest.reverse, decodeHex dirty with
     | some a, some pat =>
       let body := wrapBody (select a.cfg a.ae a.ct a.mp (fun _ => a.lk)) a.src
-      showRR (reads (Body.readLegacy a.find) body (a.bufs.map (cyc pat)))
+      let bufs := (a.bufs ++ List.replicate 4 a.tail).map (cyc pat)
+        ++ List.replicate a.fuel (List.replicate a.tail 0)
+      showRR (reads (Body.readLegacy a.find) body bufs)
     | _, _ => "bad-op"
   | [] => "bad-op"
 
